@@ -292,6 +292,16 @@ func (g *SentinelGroup) PublishEvent(sentinel, ch, msg string) int64 {
 	return g.PublishEventLocked(sentinel, ch, msg)
 }
 
+// SubscribersLocked counts the connections of one sentinel that are subscribed to channel ch
+// (plain SUBSCRIBE), so that a scenario can publish an event only when somebody listens.
+func (g *SentinelGroup) SubscribersLocked(sentinel, ch string) int {
+	s := g.sentinel(sentinel)
+	if s == nil {
+		return 0
+	}
+	return len(s.pubsub[ch])
+}
+
 // SwitchMasterMsg is the payload of +switch-master.
 func (g *SentinelGroup) SwitchMasterMsg(oldMaster, newMaster string) string {
 	oip, oport := senSplit(oldMaster)
